@@ -266,6 +266,16 @@ func (d *Dispatcher) AddPeer(
 func (d *Dispatcher) addPeer(
 	peerID core.PeerID, isPeerOrigin bool, b *bitset.BitSet, messages Messages) (*peer, error) {
 
+	// The bitfield comes from the remote peer's handshake: it must describe
+	// exactly the pieces of this torrent, since it indexes numPeersByPiece.
+	n := uint(d.torrent.NumPieces())
+	if b.Len() != n {
+		return nil, fmt.Errorf("invalid bitfield: %d bits for %d pieces", b.Len(), n)
+	}
+	if _, ok := b.NextSet(n); ok {
+		return nil, fmt.Errorf("invalid bitfield: bits set beyond %d pieces", n)
+	}
+
 	pstats := &peerStats{}
 	if s, ok := d.peerStats.LoadOrStore(peerID, pstats); ok {
 		ps, ok := s.(*peerStats)
